@@ -12,6 +12,7 @@ import Driver.C25
 import Driver.C31
 import Driver.C37
 import Driver.C12
+import Driver.C13
 import Driver.C14
 import Driver.C15
 import Driver.C18
@@ -29,6 +30,7 @@ def step (line : String) : String :=
   | "C06" :: ts => stepC06 ts
   | "C07" :: ts => stepC07 ts
   | "C12" :: ts => stepC12 ts
+  | "C13" :: ts => stepC13 ts
   | "C14" :: ts => stepC14 ts
   | "C15" :: ts => stepC15 ts
   | "C18" :: ts => stepC18 ts
